@@ -24,7 +24,7 @@ COMPONENTS = {"real": ["SCSICheckCondition (scsi_sense.py)", "SCSIDevice.execute
 ASSUMPTIONS = [
     "key/ASC/ASCQ positions from SPC-4 4.5: fixed byte 2 low nibble, bytes 12/13; descriptor byte 1 low nibble, bytes 2/3; bytes beyond the buffer read as zero",
     "the sense key is read from exc.data['sense_key'] (or an attribute sense_key), ASC/ASCQ from exc.asc/exc.ascq - the observation points the property names",
-    "T10 text is demanded (case-insensitive substring) only for the 41 well-known codes in t10/sense.py and the 15 named sense keys",
+    "T10 text is demanded (case-insensitive substring) only for the ~150 well-known codes in t10/sense.py and the 15 named sense keys",
     "for response codes outside 70h-73h only 'does not raise' is demanded",
 ]
 REQUIRED_PROBES = ["reinspected", "print_data_option", "decoded_ok", "text_ok", "rc_deferred", "rc_unknown", "short_buffer", "long_sense_iscsi"]
